@@ -1,6 +1,7 @@
 pub mod c02;
 pub mod c07;
 pub mod c11;
+pub mod c12;
 pub mod c15;
 pub mod c16;
 pub mod c18;
@@ -14,6 +15,7 @@ pub fn run(id: &str, tier: Tier) -> Option<i32> {
         "C02" => c02::run(tier),
         "C07" => c07::run(tier),
         "C11" => c11::run(tier),
+        "C12" => c12::run(tier),
         "C15" => c15::run(tier),
         "C16" => c16::run(tier),
         "C18" => c18::run(tier),
@@ -39,6 +41,8 @@ pub fn replay(property: &str, part: &str, case: &serde_json::Value) -> Option<Re
         ("C15", "codec") => replay_part(&c15::Codec, case, 1),
         ("C15", "network") => replay_part(&c15::Net, case, 1),
         ("C15", "no-limit") => replay_part(&c15::NoLimit, case, 1),
+        ("C12", "abandon-sweep") => replay_part(&c12::Sweeps, case, 1),
+        ("C12", "abandon-history") => replay_part(&c12::Histories, case, 1),
         _ => return None,
     })
 }
